@@ -87,6 +87,8 @@ def run_harnesses(scratch, obligations, jobs=16, harness_timeout=900, overall_ti
     cmd = ["cargo", "kani"] + KANI_FLAGS + ["--exact", "--output-format", "terse",
                                             "--harness-timeout", "%ds" % harness_timeout,
                                             "--export-json", out_json]
+    if os.environ.get("VERIF_KANI_SOLVER"):
+        cmd += ["--solver", os.environ["VERIF_KANI_SOLVER"]]
     if playback:
         cmd += ["-Z", "concrete-playback", "--concrete-playback=print"]
     else:
@@ -113,7 +115,7 @@ def run_harnesses(scratch, obligations, jobs=16, harness_timeout=900, overall_ti
             results[o.id] = dict(status="undecided", reason=reason, errors=errs, failed=[], undecided=[], n_checks=0,
                                  solver_s=0.0, wall_s=wall)
         return results, " ".join(cmd), out
-    stats = {c["harness_id"]: c.get("cbmc_stats", {}) for c in data.get("cbmc", [])}
+    stats = {c["harness_id"]: (c.get("cbmc_stats") or {}) for c in data.get("cbmc", [])}
     errs = {e["harness_id"]: e for e in data.get("error_details", [])}
     seen = set()
     for r in data.get("verification_results", {}).get("results", []):
@@ -134,7 +136,7 @@ def run_harnesses(scratch, obligations, jobs=16, harness_timeout=900, overall_ti
                 undec.append(item)
             elif k == "ignore":
                 ignored += 1
-        st = stats.get(hid, {})
+        st = stats.get(hid) or {}
         solver = float(st.get("runtime_decision_procedure_s", 0.0) or 0.0)
         status = "ok"
         reason = ""
